@@ -450,15 +450,20 @@ class Executor:
         self.seconds = time.time() - t0
         return self.obligations
 
-    def prove_induction(self, st, name, k, lo, hi, prop, direction="up", patterns=None):
+    def prove_induction(self, st, name, k, lo, hi, prop, direction="up", patterns=None, generalize=None, guard=None):
         """Lemma by induction on k over [lo, hi].
         up:   base prop(lo); step lo <= k < hi and prop(k) ==> prop(k+1)
         down: base prop(hi); step lo <= k < hi and prop(k+1) ==> prop(k)
         Once both obligations are discharged, forall k in [lo, hi]. prop(k) is assumed on the path."""
         lo, hi = to_z3(lo), to_z3(hi)
         base_at = lo if direction == "up" else hi
-        ok1 = self.oblige(st, z3.Implies(lo <= hi, prop(base_at)), f"{self.contract.prefix}.lemma.{name}.base", f"lemma {name}: base case k = {base_at}")
+        s1 = st.fork()
+        if guard is not None:
+            s1.assume(guard)
+        ok1 = self.oblige(s1, z3.Implies(lo <= hi, prop(base_at)), f"{self.contract.prefix}.lemma.{name}.base", f"lemma {name}: base case k = {base_at}")
         s2 = st.fork()
+        if guard is not None:
+            s2.assume(guard)
         if direction == "up":
             s2.assume(z3.And(k >= lo, k < hi, prop(k)))
             goal = prop(k + 1)
@@ -467,7 +472,20 @@ class Executor:
             goal = prop(k)
         ok2 = self.oblige(s2, goal, f"{self.contract.prefix}.lemma.{name}.step", f"lemma {name}: inductive step ({direction})")
         if ok1 and ok2:
-            st.assume(forall(k, z3.Implies(z3.And(k >= lo, k <= hi), prop(k)), patterns=patterns(k) if patterns else None))
+            body = z3.Implies(z3.And(k >= lo, k <= hi), prop(k))
+            if generalize:
+                # the lemma was proved for arbitrary (fresh, unconstrained apart from `guard`) constants: universal generalisation
+                vs = list(generalize) + [k]
+                if guard is not None:
+                    body = z3.Implies(guard, body)
+                pats = patterns(k) if patterns else None
+                try:
+                    st.assume(z3.ForAll(vs, body, patterns=pats) if pats else z3.ForAll(vs, body))
+                except z3.Z3Exception:
+                    st.assume(z3.ForAll(vs, body))
+            else:
+                st.assume(forall(k, body, patterns=patterns(k) if patterns else None))
+        return ok1 and ok2
 
     def at_return(self, state, val, fn):
         self.path_count += 1
@@ -618,7 +636,12 @@ class Executor:
             if cut is not None and not st.ghost.get(("cut", target.id)):
                 # cut rule: prove an intermediate fact about the freshly assigned variable once, then assume it
                 st.ghost[("cut", target.id)] = True
-                for name, f in cut(self, st.vars):
+                for name, f in cut(self, {**st.vars, "__state__": st}):
+                    if name == "__deferred__":
+                        for n2, f2 in f(self, {**st.vars, "__state__": st}):
+                            if self.oblige(st, f2, f"{self.contract.prefix}.cut.{target.id}.{n2}", f"intermediate fact about {target.id}: {n2}"):
+                                st.assume(f2)
+                        continue
                     if self.oblige(st, f, f"{self.contract.prefix}.cut.{target.id}.{name}", f"intermediate fact about {target.id}: {name}"):
                         st.assume(f)
         elif isinstance(target, (ast.Tuple, ast.List)):
